@@ -212,17 +212,11 @@ Definition n_plain : str := [112; 108; 97; 105; 110].
 Definition n_on_dark : str := [111; 110; 95; 100; 97; 114; 107].
 (* red(x) = fmtstr(x, 'red'), on_blue(x) = fmtstr(x, 'on_blue'), bold(x) = fmtstr(x, 'bold'),
    plain(x) = fmtstr(x), on_dark = deprecated name of on_black; helper names are exact *)
+Definition positional_names : list str :=
+  map color_name all_colors ++ map (fun c => n_on ++ color_name c) all_colors ++ map style_name all_styles.
 Definition func_args (name : str) : option (list value) :=
   if str_eqb name n_plain then Some []
   else if str_eqb name n_on_dark then Some [VStr (n_on ++ color_name Black)]
-  else match color_named name with
-       | Some _ => Some [VStr name]
-       | None =>
-           match (if str_eqb (firstn 3 name) n_on then color_named (skipn 3 name) else None) with
-           | Some _ => Some [VStr name]
-           | None => match style_named name with Some _ => Some [VStr name] | None => None end
-           end
-       end.
-Definition all_func_names : list str :=
-  n_plain :: n_on_dark :: map color_name all_colors ++ map (fun c => n_on ++ color_name c) all_colors ++
-  map style_name all_styles.
+  else if mem_str name positional_names then Some [VStr name]
+  else None.
+Definition all_func_names : list str := n_plain :: n_on_dark :: positional_names.
